@@ -33,12 +33,13 @@ Theorem pair_up_is_sent_order :
              tcp (pair_up l (seq 0 (count l))) ++ udp (pair_up l (seq 0 (count l)))) = http l ++ tls l ++ tcp l ++ udp l.
 Proof. exact pair_up_order. Qed.
 
-(** no_fd_lost: once the old worker has returned its listen sockets (it keeps
-    its own copies: SCM_RIGHTS duplicates, return_listen_sockets takes and does
-    not close), EVERY interleaving of receive / old-worker exit / old-worker
-    crash / repeated returns keeps at least one holder of the listening socket *)
+(** no_fd_lost: once the old worker has returned its listen sockets (the
+    descriptors travel as SCM_RIGHTS copies in the message; the worker drops its
+    own), EVERY interleaving of receive / old-worker exit / old-worker crash /
+    repeated returns keeps at least one holder of the listening socket: the
+    message in flight or the successor *)
 Theorem no_fd_lost :
-  forall steps, alive (fold_left hand steps (mko true true false)) = true.
+  forall steps, alive (fold_left hand steps (hand (mko true false false) HReturn)) = true.
 Proof.
   intros steps.
   assert (G : forall o, in_flight o = true \/ new_w o = true ->
@@ -46,7 +47,7 @@ Proof.
   { induction steps as [|s steps IH]; intros o I; cbn [fold_left]; [exact I|].
     apply IH. destruct o as [a b c]; destruct s; cbn in *; destruct a, b, c; cbn; auto;
       destruct I; discriminate. }
-  specialize (G (mko true true false) (or_introl eq_refl)). cbn zeta in G.
+  specialize (G (hand (mko true false false) HReturn) (or_introl eq_refl)). cbn zeta in G.
   unfold alive. destruct G as [G|G]; rewrite G; rewrite ?orb_true_r; reflexivity.
 Qed.
 
